@@ -823,6 +823,7 @@ class Record:
                 f['n'] = o
         self.methods = [dict(n=S[m['n']], key=S[m['key']], virtual=m.get('virtual', 0), pure=m.get('pure', 0),
                              final=m.get('final', 0), const=m.get('const', 0), deleted=m.get('deleted', 0),
+                             defaulted=m.get('defaulted', 0), defined=m.get('def', 0), line=m.get('line', 0),
                              acc=m['acc'], ov=[S[o] for o in m.get('ov', [])]) for m in raw['methods']]
 
 
@@ -836,6 +837,7 @@ class FactBase:
         self.records = {}
         self.enums = {}
         self.vars = {}
+        self.member_def = {}  # (class, member, line, file) -> 1 if some specialisation instantiated its definition
         self.templates = {}  # (qualified name, file, line) of a namespace-scope function template -> instantiations seen
         self.units = []
         self._by_qn = None
@@ -853,6 +855,13 @@ class FactBase:
             n = S[raw['name']]
             if n not in self.records:
                 self.records[n] = Record(raw, S)
+            # which user-declared members of (specialisations of) a class have an instantiated definition anywhere
+            qn0 = strip_targs(S[raw['qn']])
+            for m in raw['methods']:
+                if m.get('deleted') or m.get('pure'):
+                    continue
+                k = (qn0, S[m['n']], m.get('line', 0), S[raw['file']])
+                self.member_def[k] = max(self.member_def.get(k, 0), m.get('def', 0))
         for raw in d['functions']:
             k = S[raw['key']]
             if k not in self.fn:
